@@ -1250,6 +1250,11 @@ def fixed_cases():
         ("variadic-exact-fixed", 'fn show(s: str) -> str { fmt(s) }\nfn main() { println(fmt("plain")); println(fmt("%d-%s", 1, "two")); println(show("== hi ==")); println(); print(); }\n', False,
          "fmt called with its format string only"),
         ("variadic-too-few", "fn main() { println(fmt()); }\n", True, "fmt without its format string"),
+        # a try expression whose try block diverges has the type of its catch block
+        ("try-never-catch-value-ok", "fn risky(n: int) -> int { n }\nfn f(n: int) -> int { let v = try { return risky(n); } catch _e { 0 - 1 }; v + 1 }\nfn main() { println(f(1)); }\n", False,
+         "diverging try block, int catch block: the value is an int"),
+        ("try-never-catch-value-misuse", "fn risky(n: int) -> int { n }\nfn f(n: int) -> int { let v = try { return risky(n); } catch _e { 0 - 1 }; let w: str = v; println(w); v }\nfn main() { println(f(1)); }\n", True,
+         "the int of the catch block used as a str"),
         # the identifier of a catch block lives in the catch block only
         ("catch-ident-after", 'fn main() { try { throw("x"); } catch e { println(e.message); } println(e.message); }\n', True, "catch identifier used after the try expression"),
         ("catch-ident-after-fn", 'fn f() -> str { let r = try { "a" } catch err { err.message }; err.message }\nfn main() { println(f()); }\n', True, "catch identifier used after the try expression (function tail)"),
